@@ -624,6 +624,10 @@ fn run(r: &mut Report, sc: &Scenario) {
             .map(|e| first_ack.get(&e.vid).copied().unwrap_or(u64::MAX))
             .max()
             .unwrap_or(0);
+        let never_started = live.iter().any(|s| {
+            let has_events = sc.events.iter().chain(primers.iter()).any(|e| expected_signal(e.kind, sc.subset) == Some(*s));
+            has_events && !records.iter().any(|r| r.endpoint == *s) && !col.conns().iter().any(|c| c.endpoint == *s)
+        });
         let mut blocked = None;
         // a healthy signal that ran out of its own retry budget (spontaneous failures) stops trying:
         // silence is then no sign of being blocked
@@ -641,7 +645,11 @@ fn run(r: &mut Report, sc: &Scenario) {
                 // (primers are emitted first; the burst only after the primers arrived)
                 let any_progress = healthy.iter().any(|h| *h > a && *h < b);
                 let in_flight = records.iter().any(|rec| rec.endpoint != dead && rec.received < b && rec.done.map(|d| d > a).unwrap_or(true));
-                if !any_progress && !in_flight {
+                // Silence alone is not enough (events that were lost also end in silence, which is rule 1's
+                // business): either the healthy side comes back to life afterwards, or a healthy endpoint
+                // with events destined to it was never contacted at all.
+                let resumed = healthy.iter().any(|h| *h > b);
+                if !any_progress && !in_flight && (resumed || never_started) {
                     blocked = Some((a, b));
                     break;
                 }
